@@ -34,9 +34,20 @@ def header_of(obj):
     return every[:max(0, len(every) - len(obj.lines))]
 
 
-def to_py(val, text_gen):
-    """Build the Python content object described by a spec value."""
+def to_py(val, text_gen, memo=None):
+    """Build the Python content object described by a spec value.  Structurally equal containers inside one value are the
+    SAME Python object (a shared separator list, a dict used twice): sharing must not change what the value means."""
+    import json as _json  # pylint: disable=import-outside-toplevel
+    memo = {} if memo is None else memo
     k = val['k']
+    if k in ('list', 'dict'):
+        key = _json.dumps(val, sort_keys=True)
+        if key in memo:
+            return memo[key]
+        obj = [to_py(x, text_gen, memo) for x in val['items']] if k == 'list' else \
+            {f'k{i}': to_py(x, text_gen, memo) for i, x in enumerate(val['items'])}
+        memo[key] = obj
+        return obj
     if k == 'none':
         return None
     if k == 'str':
